@@ -301,6 +301,10 @@ def oracles(rec):
             if is_err:
                 if (cur[0], cur[1], cur[3]) != (prev[0], prev[1], prev[3]):
                     fail('C05', f'refused call changed the machine: before {prev}, after {cur}')
+                    # C06: a veto at the Before stage *prevents* the transition: afterwards the machine is where it was
+                    if cat == 'C06' and expected is not None and expected[0] == 'err' and (cur[0], cur[1]) != (prev[0], prev[1]):
+                        fail('C06', f'around Before vetoed {e["event"]} in {src}: the transition must be prevented and the machine '
+                                    f'stay in {src}, but afterwards it is {cur[0]}:{cur[1]}')
                 if any(c['kind'] in ('before', 'after', 'aa') for c in o['calls']):
                     fail('C05', 'a callback or AfterSuccess stage ran although the call returned an error')
             if res.startswith('panic') and dyn and cur[1] != 'poisoned' and cur[1] != src:
